@@ -5,6 +5,7 @@ import MC.Model.Prefs
 import MC.Model.Nav
 import MC.Spec.Tts
 import MC.Model.Intent
+import MC.Model.Highlight
 open Lean
 
 namespace MC.Driver
@@ -172,7 +173,17 @@ def handleIntent (op : String) (req : Json) : Option Json :=
       | .error .fuel => errJ "fuel" ""
   | _ => none
 
-def handlers : List (String → Json → Option Json) := [handleVariant, handlePreproc, handlePrefs, handleNav, handleTts, handleIntent]
+/-- C20 ops -/
+def handleHighlight (op : String) (req : Json) : Option Json :=
+  match op with
+  | "highlight" =>
+    let s := cps (getStr req "s")
+    some <| match MC.Highlight.brailleResult (getNat req "code") (getStr req "style") s with
+      | some (r, a, b) => okJ (Json.arr #[toJson (ofCps r), toJson a, toJson b, toJson (MC.Highlight.allCells s)])
+      | none => panicJ "braille.rs:highlight_first_indicator"
+  | _ => none
+
+def handlers : List (String → Json → Option Json) := [handleVariant, handlePreproc, handlePrefs, handleNav, handleTts, handleIntent, handleHighlight]
 
 def handle (req : Json) : Json :=
   let op := getStr req "op"
